@@ -97,6 +97,7 @@ def run(rep, tier):
             memsafe.stale_bound_rule(rep, fn)
             memsafe.unguarded_write_rule(rep, fn)
             memsafe.tail_fill_rule(rep, fn)
+            memsafe.stale_length_rule(rep, fn)
             ban_rule(rep, fn)
         if lab.endswith("bt_encode.c"):
             recursion_rule(rep, u)
